@@ -33,6 +33,8 @@ def gen(rng, tier):
         cases.append(EG.gen_inf_case(rng, ["hs", "bps", "cd", "bps", "hs_bucket", "bps"][i % 6]))
     for i in range(12 if tier == "quick" else 120):
         cases.append(EG.gen_inf_cycle_case(rng, ["bps", "cd", "bps", "hs"][i % 4]))
+    for i in range(12 if tier == "quick" else 120):
+        cases.append(EG.gen_arity3_case(rng, ["hs", "hs", "hs_bucket", "bps", "hs", "cd"][i % 6]))
     return cases
 
 
